@@ -164,6 +164,8 @@ func codecModel(callee string, args []SV, ev *symEval, st *symState) (SV, bool) 
 		var pt types.Type
 		if mi, ok := call.Call.Args[2].(*ssa.MakeInterface); ok {
 			pt = mi.X.Type()
+		} else if args[2].DynT != nil {
+			pt = args[2].DynT // an interface value built elsewhere (e.g. an element of a list of field pointers)
 		}
 		ptr, isPtr := pt.(*types.Pointer)
 		if !isPtr {
